@@ -334,6 +334,10 @@ func checkC14(c *run.Ctx) {
 				}
 			}
 		}
+		// the repository URL counts as written: a suffix, a slash or a letter more is another repository
+		for _, suf := range []string{".git", "t", "g", ".", "i", "/"} {
+			mustDiffer("differ:repository-url-suffix "+suf, observe("differ:repository-url-suffix", base, penv, repo+suf, kp))
+		}
 		if len(base.Env) > 0 {
 			for k, v := range base.Env {
 				tw := util.DeepCopy(base)
